@@ -112,6 +112,40 @@ static unsigned yc_next(void)
   return (unsigned)(yc_state >> 32);
 }
 
+/* a grayscale JPEG that holds exactly component `ci` of the given stream (same coefficient blocks, same quantisation table) */
+static int yc_component_jpeg(const unsigned char *jp, size_t n, int ci, unsigned char **out, unsigned long *outn, int *cw, int *ch)
+{
+  struct jpeg_decompress_struct d; struct jpeg_compress_struct c; my_err_t ed, ec; jvirt_barray_ptr *arr; jvirt_barray_ptr one[1]; jpeg_component_info *cp; JDIMENSION by, bx; int k;
+  d.err = my_err_init(&ed); c.err = my_err_init(&ec);
+  jpeg_create_decompress(&d); jpeg_create_compress(&c);
+  if (setjmp(ed.jb) || setjmp(ec.jb)) { jpeg_destroy_compress(&c); jpeg_destroy_decompress(&d); return 0; }
+  jpeg_mem_src(&d, jp, n);
+  jpeg_read_header(&d, TRUE);
+  arr = jpeg_read_coefficients(&d);
+  cp = &d.comp_info[ci];
+  *cw = (int)((d.image_width * (JDIMENSION)cp->h_samp_factor + (JDIMENSION)d.max_h_samp_factor - 1) / (JDIMENSION)d.max_h_samp_factor);
+  *ch = (int)((d.image_height * (JDIMENSION)cp->v_samp_factor + (JDIMENSION)d.max_v_samp_factor - 1) / (JDIMENSION)d.max_v_samp_factor);
+  jpeg_mem_dest(&c, out, outn);
+  c.image_width = (JDIMENSION)*cw; c.image_height = (JDIMENSION)*ch; c.input_components = 1; c.in_color_space = JCS_GRAYSCALE;
+  jpeg_set_defaults(&c);
+  if (c.quant_tbl_ptrs[0] == NULL) c.quant_tbl_ptrs[0] = jpeg_alloc_quant_table((j_common_ptr)&c);
+  for (k = 0; k < 64; k++) c.quant_tbl_ptrs[0]->quantval[k] = cp->quant_table ? cp->quant_table->quantval[k] : d.quant_tbl_ptrs[cp->quant_tbl_no]->quantval[k];
+  c.quant_tbl_ptrs[0]->sent_table = FALSE;
+  c.optimize_coding = TRUE;
+  one[0] = (*c.mem->request_virt_barray) ((j_common_ptr)&c, JPOOL_IMAGE, TRUE, cp->width_in_blocks, cp->height_in_blocks, 1);
+  jpeg_write_coefficients(&c, one);
+  for (by = 0; by < cp->height_in_blocks; by++) {
+    JBLOCKARRAY src = (*d.mem->access_virt_barray) ((j_common_ptr)&d, arr[ci], by, 1, FALSE);
+    JBLOCKARRAY dst = (*c.mem->access_virt_barray) ((j_common_ptr)&c, one[0], by, 1, TRUE);
+    for (bx = 0; bx < cp->width_in_blocks; bx++) memcpy(dst[0][bx], src[0][bx], sizeof(JBLOCK));
+  }
+  jpeg_finish_compress(&c);
+  jpeg_destroy_compress(&c);
+  jpeg_finish_decompress(&d);
+  jpeg_destroy_decompress(&d);
+  return 1;
+}
+
 static int op_yuvcontent(toks_t *t)
 {
   int w = (int)tl(t, 1), h = (int)tl(t, 2), ss = (int)tl(t, 3), sfi = (int)tl(t, 4), pf = (int)tl(t, 5);
@@ -174,6 +208,27 @@ static int op_yuvcontent(toks_t *t)
       off += (size_t)ust * ph[i];
     }
     if (!bad && uni[usz] != 0x5A) { bad = 1; snprintf(why, sizeof(why), "write beyond tj3YUVBufSize"); }
+  }
+  /* (5) every plane is the component itself decoded at the same scale: compare with a grayscale JPEG that holds exactly that
+     component's coefficient blocks, decoded by the ordinary decompressor with the same scaling factor */
+  for (i = 0; i < nc && !bad; i++) {
+    unsigned char *gj = NULL, *gp; unsigned long gn = 0; int cw, ch, gw, gh, yy; tjhandle hg;
+    if (!yc_component_jpeg(jpeg, jsize, i, &gj, &gn, &cw, &ch)) { free(gj); continue; }
+    hg = tj3Init(TJINIT_DECOMPRESS);
+    if (tj3DecompressHeader(hg, gj, gn) == 0 && tj3SetScalingFactor(hg, sf) == 0) {
+      gw = TJSCALED(cw, sf); gh = TJSCALED(ch, sf);
+      gp = (unsigned char *)malloc((size_t)gw * gh + 16);
+      if (tj3Decompress8(hg, gj, gn, gp, 0, TJPF_GRAY) == 0) {
+        int cmpw = gw < pw[i] ? gw : pw[i], cmph = gh < ph[i] ? gh : ph[i];
+        for (yy = 0; yy < cmph && !bad; yy++)
+          if (memcmp(gp + (size_t)yy * gw, planes[i] + (size_t)yy * st[i], (size_t)cmpw)) {
+            int xx = 0; while (xx < cmpw && gp[(size_t)yy * gw + xx] == planes[i][(size_t)yy * st[i] + xx]) xx++;
+            bad = 1; snprintf(why, sizeof(why), "plane %d differs from the component decoded on its own at %d/%d (row %d col %d: %d vs %d)", i, sf.num, sf.denom, yy, xx, planes[i][(size_t)yy * st[i] + xx], gp[(size_t)yy * gw + xx]);
+          }
+      }
+      free(gp);
+    }
+    tj3Destroy(hg); free(gj);
   }
   /* (2) decode planes == direct decompress with fast upsampling */
   if (!bad) {
